@@ -58,6 +58,13 @@ def run(res, tier, seed, shard, nshards):
 
     H.in_sim(scen, watchdog=3000)
 
+    def scen2():
+        ways = ["close", "shutdown", "server-close", "eof", "send_close+close"]
+        for i in range(10 if tier == "quick" else 100):
+            if i % nshards == shard:
+                reuse_case(res, W, rng, ways[i % len(ways)])
+    H.in_sim(scen2, watchdog=3000)
+
 
 def rand_stream(rng):
     parts = []
@@ -110,3 +117,55 @@ def judge(res, W, rng, stream, mode, tag, cuts):
         res.violation(kind, f"{tag}: {detail}", case, **fields)
     if npings:
         res.sample(case, cap=3)
+
+
+def reuse_case(res, W, rng, how):
+    """the same WebSocket object, closed and connected again on a new transport, still answers every ping"""
+    from ..sim import net
+    w = W.WebSocket()
+    so1, c1 = net.pair()
+    H.HandshakePeer(c1, on_bytes=lambda c, d: None)
+    so1.settimeout(1)
+    w.connect("ws://sim.test/", socket=so1)
+    try:
+        if how == "close":
+            c1.deliver(R.encode(R.CLOSE, b"\x03\xe8"))
+            w.close(timeout=0.1)
+        elif how == "shutdown":
+            w.shutdown()
+        elif how == "server-close":
+            c1.deliver(R.encode(R.CLOSE, b"\x03\xe8bye"))
+            w.recv()
+            w.close()
+        elif how == "eof":
+            c1.peer_close()
+            try:
+                w.recv()
+            except W.WebSocketConnectionClosedException:
+                pass
+        else:
+            w.send_close()
+            w.close()
+    except Exception as e:  # noqa
+        res.violation("reuse-setup-raised", f"{how}: {type(e).__name__}: {e}", {"how": how}, how=how)
+        return
+    payload = rng.randbytes(rng.choice([0, 3, 125]))
+    stream = R.encode(R.TEXT, b"a", fin=0) + R.encode(R.PING, payload) + R.encode(R.CONT, b"b") + R.encode(R.PING, b"second") + R.encode(R.BINARY, b"SENT")
+    so2, c2 = net.pair()
+    p2 = H.HandshakePeer(c2, after=stream)
+    so2.settimeout(1)
+    res.case(("reuse", how, len(payload)), nontrivial=True)
+    res.count("object_reuse_cases")
+    case = {"gen": "object-reuse", "first_connection_ended_by": how, "ping_payload": payload}
+    try:
+        w.connect("ws://sim.test/", socket=so2)
+        got = [w.recv(), w.recv()]
+    except Exception as e:  # noqa
+        res.violation("reuse-recv-raised", f"second connection of the same object (first ended by {how}): {type(e).__name__}: {e}", case, how=how)
+        return
+    frames, pos = R.decode_all(bytes(p2.client_stream))
+    pongs = [f.payload for f in frames if f.opcode == R.PONG]
+    res.count("pongs_checked", 2)
+    if got != ["ab", b"SENT"] or pongs != [payload, b"second"] or len(frames) != 2:
+        res.violation("writes-mismatch", f"second connection of the same object (first ended by {how}): received {got!r}, pongs written {pongs!r} (frames {[f.opcode for f in frames]})",
+                      case, how=how, call="recv")
